@@ -74,6 +74,7 @@ type c16StatusAn struct {
 	wrMemo   map[*ast.FuncDecl]int // 0 unknown, 1 no, 2 yes
 	tdMemo   map[*ast.FuncDecl]int
 	depth    int
+	connReg  map[types.Object]bool // variables of the connect path loaded from Broker.clients
 	// results of the handleConn run
 	badAfter *flow.State
 	badWhy   string
@@ -298,6 +299,36 @@ func (a *c16StatusAn) run(f *flow.Func, targets map[types.Object]bool, entry c16
 		id := c16Root(x)
 		return id != nil && targets[c16Obj(f, id)]
 	}
+	// direct: x itself denotes the connection (a target variable; in the connect path: any expression
+	// of type *Client that is not rooted in a variable loaded from the registry - the connection may
+	// travel inside a struct, `attempt.client`)
+	direct := func(x ast.Expr) bool { return targets[c16Obj(f, x)] }
+	if handle {
+		newConn := func(x ast.Expr) bool {
+			x = ast.Unparen(x)
+			tv, ok := f.Info.Types[x]
+			if !ok || tv.Type == nil {
+				if o := c16Obj(f, x); o != nil {
+					tv.Type = o.Type()
+				} else {
+					return false
+				}
+			}
+			if !c16PtrTo(tv.Type, "Client") {
+				return false
+			}
+			id := c16Root(x)
+			return id != nil && !a.connReg[c16Obj(f, id)]
+		}
+		direct = newConn
+		isTarget = func(x ast.Expr) bool {
+			// x is <conn>.statusFlag or <conn>
+			if sel, ok := ast.Unparen(x).(*ast.SelectorExpr); ok && c16Sel(f, sel, a.statusF) {
+				return newConn(sel.X)
+			}
+			return newConn(x)
+		}
+	}
 	noteAfter := func(st *flow.State, via string, closing bool) {
 		if !handle || !st.Is(c16Reg, flow.True) || closing || a.badAfter != nil {
 			return
@@ -321,8 +352,12 @@ func (a *c16StatusAn) run(f *flow.Func, targets map[types.Object]bool, entry c16
 					}
 				}
 			case *ast.CallExpr:
-				_, kind := a.atomicWrite(g, x)
-				return kind != ""
+				if _, kind := a.atomicWrite(g, x); kind != "" {
+					return true
+				}
+				return a.ctorCall(g, x) != nil
+			case *ast.CompositeLit:
+				return c16IsClientLit(x, g) != nil
 			}
 			return false
 		})
@@ -348,20 +383,20 @@ func (a *c16StatusAn) run(f *flow.Func, targets map[types.Object]bool, entry c16
 						c, _ := a.konst(f, as.Rhs[i])
 						c16SetCur(st, c)
 						noteAfter(st, "an assignment", false)
-					case targets[c16Obj(f, l)]:
+					case handle && a.e.isClientsLookup(f, l) && direct(as.Rhs[i]):
+						st.Set(c16Reg, flow.True)
+					case direct(l):
 						if lit := c16IsClientLit(as.Rhs[i], f); lit != nil {
 							c16SetCur(st, a.litInit(f, lit))
 						} else if d := a.ctorCall(f, as.Rhs[i]); d != nil {
 							c16SetCur(st, a.ctorResult(d, 0))
 						}
-					case handle && a.e.isClientsLookup(f, l) && targets[c16Obj(f, as.Rhs[i])]:
-						st.Set(c16Reg, flow.True)
 					}
 				}
 			} else if len(as.Rhs) == 1 {
 				if d := a.ctorCall(f, as.Rhs[0]); d != nil {
 					for j, l := range as.Lhs {
-						if targets[c16Obj(f, l)] {
+						if direct(l) {
 							c16SetCur(st, a.ctorResult(d, j))
 						}
 					}
@@ -381,7 +416,7 @@ func (a *c16StatusAn) run(f *flow.Func, targets map[types.Object]bool, entry c16
 				return
 			}
 			d := a.e.decls[fo]
-			if d == nil || !c16IsClientMethod(d) || !targets[c16Obj(f, c16Recv(call))] {
+			if d == nil || !c16IsClientMethod(d) || c16Recv(call) == nil || !direct(c16Recv(call)) {
 				return
 			}
 			if handle && (d == a.e.declOfAnchor("readLoop") || d == a.e.declOfAnchor("writeLoop")) {
@@ -581,17 +616,35 @@ func c16Status(e *c16Env) {
 	}
 	targets := a.targets(hf)
 	e.bindParams(hf, targets, 3)
+	// the connections loaded from the registry (the superseded one): everything else of type *Client
+	// in the connect path is the new connection
+	a.connReg = map[types.Object]bool{}
+	for _, g := range syncReach(e, hf, 3) {
+		r, _, _ := e.handleConnRegVars(g)
+		for o := range r {
+			a.connReg[o] = true
+		}
+	}
+	e.bindParams(hf, a.connReg, 3)
 	var regs []ast.Node
-	inspectReach(hf, 3, func(g *flow.Func, n ast.Node) bool {
-		if as, ok := n.(*ast.AssignStmt); ok && len(as.Lhs) == len(as.Rhs) {
-			for i, l := range as.Lhs {
-				if e.isClientsLookup(g, l) && targets[c16Obj(g, as.Rhs[i])] {
-					regs = append(regs, as)
+	for _, g := range syncReach(e, hf, 3) {
+		g := g
+		ast.Inspect(g.Body, func(n ast.Node) bool {
+			if as, ok := n.(*ast.AssignStmt); ok && len(as.Lhs) == len(as.Rhs) {
+				for i, l := range as.Lhs {
+					if !e.isClientsLookup(g, l) {
+						continue
+					}
+					if tv, ok := g.Info.Types[as.Rhs[i]]; ok && tv.Type != nil && c16PtrTo(tv.Type, "Client") {
+						if id := c16Root(as.Rhs[i]); id != nil && !a.connReg[c16Obj(g, id)] {
+							regs = append(regs, as)
+						}
+					}
 				}
 			}
-		}
-		return true
-	})
+			return true
+		})
+	}
 	if !c.RequireCount("R-C16-5", "stores of the new connection into Broker.clients in handleConn", len(regs), 1) {
 		return
 	}
